@@ -222,10 +222,10 @@ def plan(prop, tier, seed=0):
     B1 = (1, 2, 1, 3) if q else (2, 3, 2, 5)        # single-signature units
     BS = (1, 1, 1, 2) if q else (1, 2, 1, 3)        # expensive pair units (forwards)
     if prop == 'C01':
-        G += [g_merge(prop, B2, 2), g_merge(prop, B3, 3, 400 if q else 12000, seed), g_folds(prop)]
+        G += [g_merge(prop, B2, 2), g_merge(prop, B3, 3, 400 if q else 5000, seed), g_folds(prop)]
     elif prop == 'C09':
-        G += [g_merge(prop, B2, 2), g_merge(prop, B3, 3, 200 if q else 6000, seed), g_mask(prop, B1, 0, 'zero'),
-              g_embed(prop, B3 if q else B2, 'embed'), g_merge_laws(prop, B1, B3, 300 if q else 6000, seed)]
+        G += [g_merge(prop, B2, 2), g_merge(prop, B3, 3, 200 if q else 2500, seed), g_mask(prop, B1, 0, 'zero'),
+              g_embed(prop, B3 if q else B2, 'embed'), g_merge_laws(prop, B1, B3, 300 if q else 2500, seed)]
     elif prop == 'C02':
         G += [g_embed(prop, B2, 'embed'), g_embed(prop, (1, 1, 0, 1) if q else B3, 'fold', 300 if q else 6000, seed)]
     elif prop == 'C03':
